@@ -208,6 +208,18 @@ fn alphabet() -> Alphabet {
         b"\x001",
         b"\n3",
         b"a\"b'`{\\",
+        // byte order is not character order: invalid UTF-8, valid sequences with lead byte >= EF, a truncated sequence
+        b"\xfe",
+        b"\x80",
+        b"\xff\xff",
+        b"\xef\xbf\xbd",
+        b"\xef\xbf\xbe",
+        b"\xf0\x9f\x98\x80",
+        b"\xc3",
+        b"\xc3\xa9",
+        // numeric strings whose integral mantissa is above 2^53, with a decimal exponent (number_coercion)
+        b"9007199254740993e1",
+        b"18014398509481985e3",
     ] {
         literals.push(string(s));
     }
@@ -349,6 +361,20 @@ fn directed_source_cases() -> Vec<(String, usize)> {
             }
         }
     }
+    // byte strings whose byte order differs from any character order, compared with EACH OTHER
+    let odd: Vec<&[u8]> = vec![
+        b"\xfe", b"\x80", b"\xff\xff", b"\xef\xbf\xbd", b"\xef\xbf\xbe", b"\xf0\x9f\x98\x80", b"\xc3", b"\xc3\xa9",
+        b"\xff", b"a\x80", b"a\xef\xbf\xbd", b"\xed\xa0\x80", b"z",
+    ];
+    for (i, l) in odd.iter().enumerate() {
+        for (j, r) in odd.iter().enumerate() {
+            for (o, op) in ["lt", "le", "gt", "ge", "eq"].iter().enumerate() {
+                out.push((bin(op, &string(l), &string(r)), (i + 3 * j + o) % STRING_STYLES));
+            }
+        }
+    }
+    let mut numbers: Vec<f64> = numbers.to_vec();
+    numbers.extend(LONG_NUMBER_TEXTS.iter().map(|t| t.parse::<f64>().unwrap()));
     for nstyle in 0..NUMBER_STYLES {
         for (i, v) in numbers.iter().enumerate() {
             let n = num(*v);
@@ -407,9 +433,13 @@ fn depth2_count(d1: &[String]) -> usize {
 }
 
 fn random_string(rng: &mut Rng) -> Vec<u8> {
-    const PIECES: [&[u8]; 24] = [
+    const PIECES: [&[u8]; 33] = [
         b"0", b"1", b"9", b"x", b"X", b"e", b"E", b"p", b".", b"-", b"+", b" ", b"_", b"b", b"a", b"f", b"\t", b"inf", b"nan",
         b"\xc2\xa0", b"\xff", b"0x", b"10", b"\n",
+        // invalid UTF-8 and valid sequences with a high lead byte (byte order vs character order)
+        b"\xfe", b"\x80", b"\xc3", b"\xc3\xa9", b"\xef\xbf\xbd", b"\xef\xbf\xbe", b"\xf0\x9f\x98\x80",
+        // integral mantissas above 2^53 (an exponent may follow)
+        b"9007199254740993", b"18014398509481985",
     ];
     let n = rng.below(6);
     let mut out = Vec::new();
@@ -765,7 +795,16 @@ struct Renderer<'a> {
     literals: Vec<(&'static str, String, String)>,
 }
 
-const NUMBER_STYLES: usize = 8;
+const NUMBER_STYLES: usize = 9;
+
+/// decimal texts with an integral mantissa above 2^53 and an exponent e1..e22: the double nearest to the
+/// TEXT is not the product of the rounded mantissa by the power of ten (double rounding)
+const LONG_NUMBER_TEXTS: [&str; 16] = [
+    "9007199254740993e1", "9007199254740993e22", "18014398509481985e3", "123456789012345678e5", "99999999999999999e10",
+    "9223372036854775807e7", "36028797018963969e15", "9007199254740995e2", "72057594037927937e1", "12345678901234567891e4",
+    "9007199254740993E1", "144115188075855873e20", "9007199254740997e19", "288230376151711745e2", "10000000000000000001e21",
+    "9007199254740999e11",
+];
 const STRING_STYLES: usize = 8;
 
 fn is_plain(b: u8) -> bool {
@@ -929,7 +968,31 @@ impl<'a> Renderer<'a> {
         let integer = v.fract() == 0.0 && v < 9007199254740992.0;
         let int = v as u64;
         let natural = format!("{:?}", v);
+        // long spelling: a 17–19 digit integral mantissa and an exponent e1..e22 denoting exactly this double
+        let long = || -> Option<String> {
+            for t in LONG_NUMBER_TEXTS {
+                if t.parse::<f64>().ok().map(f64::to_bits) == Some(bits) {
+                    return Some(t.to_owned());
+                }
+            }
+            if !(v >= 1e18 && v < 1.0e38 && v.fract() == 0.0) {
+                return None;
+            }
+            let exact = v as u128; // integral doubles below 2^127 convert exactly
+            let digits = exact.to_string().len() as u32;
+            let k = digits.saturating_sub(18).clamp(1, 22);
+            let m0 = exact / 10u128.pow(k);
+            for m in [m0 + 1, m0, m0 + 2, m0.saturating_sub(1)] {
+                let len = m.to_string().len();
+                let t = format!("{}e{}", m, k);
+                if (17..=19).contains(&len) && t.parse::<f64>().ok().map(f64::to_bits) == Some(bits) {
+                    return Some(t);
+                }
+            }
+            None
+        };
         let text = match style {
+            8 => long().unwrap_or_else(|| natural.clone()),
             1 => format!("{:e}", v),
             2 if integer => format!("0x{:x}", int),
             3 if integer => format!("0b{:b}", int),
